@@ -3,7 +3,7 @@ CONSTANTS
   Ids = {"A", "B", "C"}
   InitUp = {"A", "B"}
   Small = {"s1"}
-  Big = {}
+  Big = {"b1"}
   Fanout = 3
   TxLimit = 3
   SendList = "current"
